@@ -65,7 +65,10 @@ type Scenario struct {
 	// Enc: the backend's answer carries Content-Encoding: <Enc> (a compressing front end such as nginx with gzip on); the
 	// proxy relays the encoded bytes as they are, chunk by chunk, like any other stream
 	Enc   string `json:"enc,omitempty"`
-	Route string `json:"route"` // proxy (/olla/proxy/..., bytes relayed verbatim) | anthropic (/olla/anthropic/v1/messages: the backend's OpenAI SSE is translated on the fly; acknowledgement = the client saw new bytes)
+	// Script (histories on one long-lived rig, see history.go): the name under which this scenario's script is armed at the
+	// backend; the client sends it as X-Verif-Script, so that many scripted requests can be in flight on one rig at once
+	Script string `json:"script,omitempty"`
+	Route  string `json:"route"` // proxy (/olla/proxy/..., bytes relayed verbatim) | anthropic (/olla/anthropic/v1/messages: the backend's OpenAI SSE is translated on the fly; acknowledgement = the client saw new bytes)
 }
 
 type ChunkObs struct {
@@ -124,6 +127,8 @@ type Backend struct {
 	obs  *BackendObs
 	done chan struct{} // closed when the scripted request has been fully played
 	once sync.Once
+	// scripts of a history (history.go), by the name the client sends in X-Verif-Script
+	scripts map[string]*script
 }
 
 func NewBackend() *Backend {
@@ -189,6 +194,16 @@ func (b *Backend) handle(c net.Conn) {
 			continue
 		case strings.HasSuffix(p, "/warm"):
 			fmt.Fprintf(c, "HTTP/1.1 200 OK\r\nContent-Type: application/json\r\nContent-Length: 2\r\nConnection: close\r\n\r\n{}")
+			return
+		}
+		if id := req.Header.Get(ScriptHeader); id != "" {
+			// a request of a history: it names its own script (history.go)
+			if s := b.takeScript(id); s != nil {
+				b.play(c, s.sc, s.t0, s.acks, s.prog, s.obs)
+				close(s.done)
+				return
+			}
+			fmt.Fprintf(c, "HTTP/1.1 500 X\r\nContent-Length: 0\r\nConnection: close\r\n\r\n")
 			return
 		}
 		b.mu.Lock()
@@ -510,6 +525,9 @@ func RunClient(addr string, sc *Scenario, t0 time.Time, acks []chan struct{}, th
 	if sc.Enc != "" {
 		// the client asks for the encoding itself, so the proxy's transport relays the encoded bytes instead of decoding them
 		accept = "Accept-Encoding: " + sc.Enc + "\r\n"
+	}
+	if sc.Script != "" {
+		accept += ScriptHeader + ": " + sc.Script + "\r\n"
 	}
 	req := fmt.Sprintf("POST %s HTTP/1.1\r\nHost: %s\r\nContent-Type: application/json\r\n%sContent-Length: %d\r\nConnection: close\r\n\r\n%s", target, addr, accept, len(body), body)
 	if _, err := c.Write([]byte(req)); err != nil {
